@@ -655,7 +655,7 @@ pub open spec fn replay_fork(f0: u64, entries: Seq<Entry>, i: int) -> u64
 
 impl Hypercore {
     /*@ fn src/core.rs Hypercore::new ; noisolation
-    tags: C01 C02 C03 C10 C12 C13
+    tags: C01 C02 C03 C05 C10 C12 C13
     result: r
     requires:
         !storage.failed@
@@ -667,7 +667,7 @@ impl Hypercore {
             && r->Ok_0.events.trace@ == Seq::<Ev>::empty(),
         // opening existing storage writes nothing; creating writes only the first header slot
         r is Ok ==> r->Ok_0.storage.journal@.len() <= storage.journal@.len() + 2
-    sub `Signature::try_from\(&\*tree_upgrade\.signature\)` => `Signature::vp_try_from(&*tree_upgrade.signature)`
+    sub `Signature::try_from\(&\*([\w\.]+)\.signature\)` => `Signature::vp_try_from(&*\1.signature)`
     sub `BlockStore::default\(\)` => `BlockStore {}`
     sub `for entry in entries\.iter\(\) \{` => `for entry in it_e: entries.iter() {`
     sub `for node in &entry\.tree_nodes \{` => `for node in it_n: entry.tree_nodes.iter() {`
@@ -682,6 +682,10 @@ impl Hypercore {
             !storage.failed@, bitfield.wf(), storage.journal@.len() <= old_journal_len + 2,
             tree.length == replay_len(len0, entries@, it_e.index@ as int), tree.fork == replay_fork(fork0, entries@, it_e.index@ as int),
             forall|j: int| 0 <= j < it_n.index@ ==> tree.unflushed@.contains_key((#[trigger] entry.tree_nodes@[j]).index)
+    after `tree.commit(changeset)?;`:
+        // C05: after replaying a stored tree upgrade the tree carries the signature stored WITH that upgrade (the one the writer
+        // made over these roots, this length and fork), not an older one
+        assert(tree.signature is Some && tree.signature->Some_0.sig_bytes() == tree_upgrade.signature@);
     before `if let Some(bitfield_update) = &entry.bitfield {`:
         // C01 / C03: every tree node stored in a pending entry is restored on reopen, whether or not the entry carries a tree
         // upgrade (a block received without an upgrade is logged as nodes + bitfield update only)
